@@ -238,7 +238,7 @@ def run_side(cmd, cases, stateful, timeout, max_restarts=40):
             if len(got) < need:
                 # the driver died (or timed out) inside this case: run the case alone, line
                 # buffered, so that the output up to the crashing op is not lost with the buffer
-                rc1, out1, err1 = run_proc(cmd, flatten([c], stateful), min(timeout, 120), linebuf=True)
+                rc1, out1, err1 = run_proc(cmd, flatten([c], stateful), min(timeout, 60), linebuf=True)
                 outs1, trailing1 = split_outputs(out1)
                 if len(outs1) < need and (rc1 != 0):
                     got, trailing, rc, err = outs1, trailing1, rc1, err1
@@ -336,10 +336,15 @@ def shrink_ops(prop, hdrv, ops, failure, timeout):
     implementation alone (harness oracles, sanitizers, Python oracle) still fails with the same
     signature."""
     want = failure["signature"]
+    hang = "TIMEOUT" in str(failure.get("detail", "")) or "TIMEOUT" in want
+    t_end = time.time() + (60 if hang else 240)
+    per_run = 8 if hang else min(timeout, 60)      # a single session takes milliseconds
 
     def bad(cand):
+        if time.time() > t_end:
+            return False
         c = Case(cand, "shrink")
-        res = run_side([hdrv, prop.ENGINE], [c], True, min(timeout, 60), max_restarts=1)[0]
+        res = run_side([hdrv, prop.ENGINE], [c], True, per_run, max_restarts=1)[0]
         return any(f["signature"] == want for f in evaluate_case(prop, c, res, None)
                    if f["kind"] in ("oracle", "crash"))
 
